@@ -441,7 +441,9 @@ def engine(prop, tier, seed):
                                         "first_mismatch": mism[0] if mism else None, "input": first}, tag="_nf")
         emit_violation(pid, path, no_input=True)
         nviol += 1
-    finish(prop, tier, seed, t0, cases, stats, theorems, [b.obligation for b in broken] + (["K"] if mism else []),
+    # the correspondence counts as broken only for mismatches that are not explained by a specification failure
+    # of the same case (i.e. by a reported violation or a listed finding); explained ones stay visible in "failures"
+    finish(prop, tier, seed, t0, cases, stats, theorems, [b.obligation for b in broken] + (["K"] if mism_unexplained else []),
            fails, nviol, checker_cmds)
     return 1 if nviol else 0
 
